@@ -108,6 +108,14 @@ def oracle(case, rec):
         segs = refmodel.cycle_partition(p2[:, 0], step)
         where = 'wrap-on-last-sample' if segs and segs[-1][1] - segs[-1][0] == 1 else 'other'
         raise Violation('C12/get_cycle_vector/raises/%s/%s' % (type(e).__name__, where), repr(e))
+    held = out
+    keep = np.array(out)
+    try:
+        emd.cycles.get_cycle_vector(stored[::-1].copy(), return_good=not good, **kwargs)      # another request in between
+    except Exception as e:
+        raise Violation('C12/get_cycle_vector/raises/%s/second-request' % type(e).__name__, repr(e))
+    if not np.array_equal(np.asarray(held), keep):
+        raise Violation('C12/get_cycle_vector/earlier-result-changed-by-a-later-request', '')
     out = np.asarray(out)
     if out.ndim != 2 or out.shape != p2.shape:
         raise Violation('C12/get_cycle_vector/shape', 'out %r for input %r' % (out.shape, p.shape))
